@@ -303,7 +303,12 @@ def ev(e, env, whole=True):
             if a == 0 and b < 0:
                 raise Undefined("division-by-zero")
             return a ** b
-        if not isinstance(a, np.ndarray):
+        bc = isinstance(b, (complex, np.complexfloating)) or isinstance(b, np.ndarray)
+        if bc:
+            # complex or array exponent: defined unless the base has a zero (0**(complex) is 0 or nan)
+            if np.any(np.asarray(a) == 0):
+                raise Undefined("zero-to-complex-or-array-power")
+        elif not isinstance(a, np.ndarray):
             if a == 0 and b < 0:
                 raise Undefined("division-by-zero")
             if isinstance(a, (int, float, np.floating, np.integer)) and a < 0 and b != int(b):
